@@ -342,6 +342,18 @@ def campaign(c):
                     c.violation('det:batch-after-failure', 'a file compiled after a failing one differs from the same file compiled alone (failing member %d: %r)' % (j, bad[:40]),
                                 dict(src=goodsrc.decode(), bad=bad.decode('utf-8', 'replace'), out=impl['stdout'][-300:]))
         c.case(('after-failure', j), dict(kind='batch-after-failure', bad=bad.decode('utf-8', 'replace')))
+    # ... and members that fail before (or without) an output file: an input that does not exist, an input that is a directory, a
+    # path without a file name - first, in the middle, twice in a row
+    for j, badm in enumerate([dict(stem='missing', src=None), dict(stem='adir', src=None, isdir=True), dict(stem=None, src=None)]):
+        for order in ([badm, dict(stem='g', src=goodsrc), dict(stem='g2', src=goodsrc)], [dict(stem='g', src=goodsrc), badm, dict(stem='g2', src=goodsrc)],
+                      [badm, dict(badm), dict(stem='g', src=goodsrc), dict(stem='g2', src=goodsrc)]):
+            for keep in (False, True):
+                impl, model = batch.compare(c, order, keep=keep, what='batch-after-failure')
+                for nme in ('g', 'g2'):
+                    if impl['dir'].get(nme) != alone['dir'].get('g'):
+                        c.violation('det:batch-after-failure', 'a file compiled after a member without an output differs from the same file compiled alone (member: %s%s)' % (badm, ', -k' if keep else ''),
+                                    dict(src=goodsrc.decode(), out=impl['stdout'][-300:]))
+        c.case(('after-failure-no-output', j), dict(kind='batch-after-failure', member=str(badm)))
     # batches: same files together, in two orders, with failing members
     names = list(progs)
     for b in range(6 if c.quick else 60):
